@@ -77,6 +77,11 @@ def run_case(case: dict[str, Any]) -> Outcome:
 
     try:
         models = [programs.model_call(spec, c) for c in calls]
+        for mo, c in zip(models, calls, strict=True):  # same cheap canonical form as the observations (strings pass norm_value unchanged)
+            if spec["methods"][c["mid"]]["kind"] == "unary" and mo["error"] is None:
+                mo["value"] = c29_shm.fast_norm(mo["value"])
+            for mb in mo["batches"]:
+                mb["data"] = c29_shm.fast_norm(mb["data"])
         with c29_shm.open_link(protocol, impl, None) as link:
             inline = c29_shm.run_history(link, protocol, spec, raw, policy, run_id)
         n_inline_events = len(RT.INVOCATIONS[run_id])
@@ -110,13 +115,13 @@ def run_case(case: dict[str, Any]) -> Outcome:
         elif not b["raw"] and transports.compare_to_model(b, models[ci]):
             out.label("model_disagrees_with_both")  # not C29's business (C01); visible in evidence
     # what the implementation received must not depend on the route
-    ia = [{k: v for k, v in e.items() if k != "state_id"} for e in ev_inline]
-    ib = [{k: v for k, v in e.items() if k != "state_id"} for e in ev_shm]
-    if transports.norm_value(ia) != transports.norm_value(ib):
-        first = next((i for i, (x, y) in enumerate(zip(ia, ib, strict=False)) if transports.norm_value(x) != transports.norm_value(y)), min(len(ia), len(ib)))
+    ia = [repr({k: v for k, v in e.items() if k != "state_id"}) for e in ev_inline]
+    ib = [repr({k: v for k, v in e.items() if k != "state_id"}) for e in ev_shm]
+    if ia != ib:
+        first = next((i for i, (x, y) in enumerate(zip(ia, ib, strict=False)) if x != y), min(len(ia), len(ib)))
         ea = ia[first] if first < len(ia) else None
         eb = ib[first] if first < len(ib) else None
-        evk = (eb or ea or {}).get("ev", "?")
+        evk = (ev_shm[first] if first < len(ev_shm) else ev_inline[first])["ev"]
         out.fail(f"server_saw_different/{evk}", f"invocation #{first}: inline {str(ea)[:500]}\n shm {str(eb)[:500]}")
     # ---- labels / non-triviality
     used = facts["n_writes"] + facts["n_frees"] > 0
